@@ -508,6 +508,37 @@ def C13_trailing_bytes_after_non2x_depend_on_segmentation():
     two = _client_proto([b"51 Not found\r\n", tail])
     return one[0] != two[0]
 
+@witness
+def C02_symlink_loop_defeats_containment():
+    """Path.resolve() (non-strict) gives up at a symlink loop and returns a lexically normalised, partly
+    unresolved path: /loop/../out/secret.txt passes the containment test although `out` points outside."""
+    d = tempfile.mkdtemp(dir="/var/tmp", prefix="nvw-")
+    try:
+        root = os.path.join(d, "root"); os.makedirs(root); os.makedirs(os.path.join(d, "outside"))
+        open(os.path.join(d, "outside", "secret.txt"), "w").write("OUTSIDE-SECRET")
+        os.symlink("loop", os.path.join(root, "loop")); os.symlink("../outside", os.path.join(root, "out"))
+        try:
+            r = _static(root, "gemini://h/loop/../out/secret.txt")
+            return r.status == 20 and "OUTSIDE-SECRET" in (r.body or "")
+        except Exception:
+            return False
+    finally: shutil.rmtree(d)
+
+@witness
+def C14_symlink_loop_defeats_upload_containment():
+    from nauyaca.server.handler import FileUploadHandler
+    from nauyaca.protocol.request import TitanRequest
+    d = tempfile.mkdtemp(dir="/var/tmp", prefix="nvw-")
+    try:
+        up = os.path.join(d, "up"); os.makedirs(up); os.makedirs(os.path.join(d, "outside"))
+        os.symlink("loop", os.path.join(up, "loop")); os.symlink("../outside", os.path.join(up, "out"))
+        h = FileUploadHandler(up)
+        req = TitanRequest.from_line("titan://h/loop/../out/planted.txt;size=3"); req.content = b"abc"
+        try: asyncio.run(h.handle_upload(req))
+        except Exception: pass
+        return os.path.exists(os.path.join(d, "outside", "planted.txt"))
+    finally: shutil.rmtree(d)
+
 # MAIN
 if __name__ == "__main__":
     names = sys.argv[1:] or sorted(W)
